@@ -38,11 +38,13 @@ func (muxerSlice) Gen(r *rand.Rand, _ int, tier string) ([]string, []string) {
 	mkVideo := func() *genTrack {
 		codec := "h264"
 		if variant != "ts" {
-			switch r.Intn(8) {
+			switch r.Intn(9) {
 			case 0:
 				codec = "vp9"
 			case 1:
 				codec = "av1"
+			case 2:
+				codec = "h265"
 			}
 		}
 		fr := []int64{9000, 6000, 3600, 3000, 3003, 1800, 1500, 90000, 750}[r.Intn(9)]
@@ -193,6 +195,10 @@ func (muxerSlice) Gen(r *rand.Rand, _ int, tier string) ([]string, []string) {
 		nWrites = 400 + r.Intn(1200)
 		tags = append(tags, "long")
 	}
+	if variant == "ts" && len(tracks) == 1 && tracks[0].codec == "aac" {
+		nWrites = 130 + r.Intn(300) // audio-only MPEG-TS cuts only after 100 writes
+		tags = append(tags, "ts-audio-only-long")
+	}
 	pay := 0
 	snapEvery := 1 + r.Intn(6)
 	sawReq := false
@@ -261,10 +267,13 @@ func (muxerSlice) Gen(r *rand.Rand, _ int, tier string) ([]string, []string) {
 			case "h264":
 				size = mxH264Sizes(variant, mxBuildH264(par, ra, pic, pay, fill))
 			default:
-				// VP9 / AV1: parameters travel with every key frame / sequence header and only there
+				// VP9 / AV1 / H265: parameters travel with every key frame / sequence header and only there
 				pic = true
 				if t.par > 2 {
 					t.par = 1 + t.par%2
+				}
+				if t.codec == "h265" {
+					t.par = 1 // one parameter-set triple (the DTS extractor parses it)
 				}
 				if ra {
 					par = t.par
@@ -282,7 +291,7 @@ func (muxerSlice) Gen(r *rand.Rand, _ int, tier string) ([]string, []string) {
 			if dupDTS && r.Intn(6) == 0 {
 				step = 0
 			}
-			if malformedWrites && r.Intn(5) == 0 {
+			if malformedWrites && r.Intn(5) == 0 && t.codec != "h265" {
 				step = -t.frame
 			}
 			t.nextPTS += step
